@@ -46,7 +46,7 @@ pub fn cases(ctx: &Ctx) -> Vec<Case> {
     }
     let k = ctx.k;
     let mut rng = Rng::derive(ctx.seed, &[0xC17]);
-    let n = if ctx.quick() { 64 } else { 1500 };
+    let n = if ctx.quick() { 240 } else { 4000 };
     let names = ["a.txt", "empty", "with space.bin", "é日本語.dat", "sub/b.bin", "sub/deep/er/c", "sub/with space/d d", "z-last", "sub2/ü", "UPPER.TXT"];
     for i in 0..n {
         let nf = 1 + rng.usize_below(6);
